@@ -21,7 +21,7 @@ CACHE = os.path.join(os.path.dirname(os.path.dirname(os.path.dirname(os.path.abs
 def enumerate_shapes(tier="quick", which=None):
     """[(family, shape, placements)]"""
     out = []
-    fams = which or ("field", "array", "length", "dummy", "break", "chunked", "switch", "empty", "comment")
+    fams = which or ("field", "array", "length", "dummy", "break", "chunked", "switch", "empty", "comment", "pair", "badtype")
     all_pl = S.PLACEMENTS
     few_pl = ["top", "chunked", "case"]
     if "field" in fams:
@@ -47,6 +47,12 @@ def enumerate_shapes(tier="quick", which=None):
     if "comment" in fams:
         for sh in S.comment_shapes():
             out.append(("comment", sh, few_pl))
+    if "pair" in fams:
+        for sh in S.pair_shapes():
+            out.append(("pair", sh, few_pl))
+    if "badtype" in fams:
+        for sh in S.badtype_shapes():
+            out.append(("badtype", sh, few_pl))
     if "empty" in fams:
         out.append(("empty", S.empty_object_shape(), all_pl))
     return out
